@@ -88,6 +88,10 @@ impl Peer {
     pub fn sent(&self) -> Vec<Bytes> {
         self.sh.lock().unwrap().sent.clone()
     }
+    /// the i-th message the client wrote (empty if there is none)
+    pub fn sent_at(&self, i: usize) -> Bytes {
+        self.sh.lock().unwrap().sent.get(i).cloned().unwrap_or_default()
+    }
     pub fn sent_count(&self) -> usize {
         self.sh.lock().unwrap().sent.len()
     }
